@@ -187,9 +187,16 @@ fn fv_gram(t: &crate::term::Term, cutoff: usize) -> BTreeSet<usize> {
 }
 
 pub fn check_term(ctx: &mut Ctx, e: &E, inserts: &[E], max_cut: usize, max_amt: i64) {
+    let cutoffs: Vec<usize> = (0..=max_cut).collect();
+    let amounts: Vec<i64> = (-max_amt..=max_amt).collect();
+    check_term_at(ctx, e, inserts, &cutoffs, &amounts, &cutoffs, &[0, 1]);
+}
+
+// The same comparison at explicitly given cutoffs, amounts, opened indices and insertion shifts.
+pub fn check_term_at(ctx: &mut Ctx, e: &E, inserts: &[E], cutoffs: &[usize], amounts: &[i64], indices: &[usize], shifts: &[usize]) {
     let t = to_gram(e);
     let fv0 = ref_free_variables(e, 0).unwrap_or_default();
-    for cutoff in 0..=max_cut {
+    for &cutoff in cutoffs {
         // free variables
         ctx.eval();
         match guard(|| fv_gram(&t, cutoff)) {
@@ -205,7 +212,7 @@ pub fn check_term(ctx: &mut Ctx, e: &E, inserts: &[E], max_cut: usize, max_amt: 
                 }
             }
         }
-        for amount in -max_amt..=max_amt {
+        for &amount in amounts {
             ctx.eval();
             let got = match guard(|| signed_shift(&t, cutoff, amount as isize).map(|x| mirror(&x))) {
                 Ok(g) => g,
@@ -256,10 +263,10 @@ pub fn check_term(ctx: &mut Ctx, e: &E, inserts: &[E], max_cut: usize, max_amt: 
             }
         }
     }
-    for index in 0..=max_cut {
+    for &index in indices {
         for (ui, u) in inserts.iter().enumerate() {
-            for shift in 0..=1usize {
-                if shift == 1 && ui % 3 != 0 {
+            for &shift in shifts {
+                if shift == 1 && ui % 3 != 0 && shifts.len() == 2 {
                     continue;
                 }
                 ctx.eval();
@@ -349,7 +356,7 @@ impl Prop for C11P {
                 sec("large-groups-with-atomic-parts", tier.pick(6_000, 120_000)),
                 sec("random-terms", tier.pick(4_000, 80_000)),
             ],
-            "every hole-free de Bruijn term of at most 4 (quick) / 5 (thorough) nodes over all term formers (groups of 1, 2 and 3 definitions, both implicit flags, indices 0-3) x cutoff 0-3 x amount -3..3 for signed_shift/unsigned_shift/free_variables, x index 0-3 x all 20 inserted terms of at most 2 nodes x shift 0-1 for open; groups of 4-8 definitions with atomic parts (variables inside and up to 4 beyond the group) under 0-2 binders (sampled); random terms up to 200 nodes and depth 30, groups of up to 8 definitions; each result compared exactly with a named-term reference and checked against the laws; non-trivial = distinct term with at least one binder or free variable",
+            "every hole-free de Bruijn term of at most 4 (quick) / 5 (thorough) nodes over all term formers (groups of 1, 2 and 3 definitions, both implicit flags, indices 0-3) x cutoff 0-3 x amount -3..3 for signed_shift/unsigned_shift/free_variables, x index 0-3 x all 20 inserted terms of at most 2 nodes x shift 0-1 for open; groups of 4-8 definitions with atomic parts (variables inside and up to 4 beyond the group) under 0-2 binders (sampled); random terms up to 200 nodes and depth 30, groups of up to 8 definitions, also with cutoffs, amounts, opened indices and insertion shifts up to 65 536 (amounts up to 2^33) and inserted terms of up to 23 nodes with binders of their own; each result compared exactly with a named-term reference and checked against the laws; non-trivial = distinct term with at least one binder or free variable",
         );
         p.assumptions = vec!["hole-free terms only (the statement is about hole-free terms); names are carried through unchanged".into()];
         p.floor_evaluations = 500_000;
@@ -447,6 +454,20 @@ impl Prop for C11P {
                     ins.push(random_db_term(&mut r, 4, &mut b, 0));
                 }
                 check_term(ctx, &e, &ins, 4, 3);
+                // large parameters: cutoffs, amounts, indices and insertion shifts well beyond
+                // the exhaustive ranges, and inserted terms with binders of their own
+                let big = |r: &mut Rng| -> usize { [4usize, 5, 7, 12, 31, 64, 255, 256, 1000, 65_536][r.usize(10)] };
+                let cutoffs = [big(&mut r), r.usize(12)];
+                let amounts = [big(&mut r) as i64, -(big(&mut r) as i64), (1i64 << 33) + r.below(5) as i64, -(r.below(9) as i64) - 4, 4 + r.below(9) as i64];
+                let indices = [big(&mut r), 4 + r.usize(9)];
+                let shifts = [big(&mut r), 2 + r.usize(6)];
+                let mut big_ins = vec![];
+                for _ in 0..2 {
+                    let mut b = 3 + r.usize(20);
+                    big_ins.push(random_db_term(&mut r, 5, &mut b, 0));
+                }
+                check_term_at(ctx, &e, &big_ins, &cutoffs, &amounts, &indices, &shifts);
+                ctx.count("large-parameter-rounds");
                 if idx % 499 == 0 {
                     ctx.sample(Json::s(&clip(&e.show(), 300)));
                 }
